@@ -87,6 +87,29 @@ def geom(ctx, R="R-C02-geom"):
     ctx.floor(R, n, 3)
 
 
+def constructor_state(prog, D, s, T):
+    """The fields the STFT constructor's loop over the bank stores for one filter whose truncated response starts at bin s and has
+    T values, evaluated by the checker's interpreter: ({'self.<field>': value}, H).  Raises walk.Unsupported / walk.ShapeError."""
+    from .. import walk as W
+    c = prog.cls("compute.ShortTimeFourierTransformFrameComputer")
+    init = prog.own_method(c, "__init__")
+    loops = [n for n in init.body_nodes() if isinstance(n, ast.For) and any(astq.attr_call(x, "get_truncated_response") for x in ast.walk(n))]
+    if len(loops) != 1:
+        raise W.Unsupported("the constructor's loop over the bank's truncated responses was not found")
+    lists = [astq.text(t) for n in init.body_nodes() if isinstance(n, ast.Assign) and isinstance(n.value, ast.List) and not n.value.elts for t in n.targets]
+    bankname = "bank"
+    for x in ast.walk(loops[0]):
+        if astq.attr_call(x, "get_truncated_response"):
+            bankname = astq.text(x.func.value)
+    H = W.Arr([("H", j, False) for j in range(T)])
+    env = {"self._dft_size": D, "dft_size": D, bankname + ".num_filts": 1, "self._bank.num_filts": 1, "bank.num_filts": 1, "self.num_filts": 1}
+    for l_ in lists:
+        env[l_] = []
+    it = W.Interp(env, hooks={"get_truncated_response": lambda interp, call: (s, H)})
+    it.run([loops[0]])
+    return {k: v for k, v in it.env.items() if k.startswith("self.")}, H
+
+
 def walk_by_evaluation(ctx, R="R-C02-walk"):
     """Coefficient i is the sum over ALL bins of the DFT of |H_i[k] X[k]|^p, with H_i given as a start bin s and a run of T
     values that may wrap round the end of the spectrum, and X available as the half spectrum only (bins above D/2 are the
@@ -472,8 +495,12 @@ def filters_stored_whole(ctx, R="R-C02-walk"):
     f = prog.own_method(c, "__init__")
     ev = SymEval(prog, f).run()
     for attr, pos, what in (("self._truncated_filts", 1, "truncated responses"), ("self._filt_start_idxs", 0, "start bins")):
-        if pos == 0 and getattr(ctx, "_walk_decided", False) and R.startswith("R-C02"):
-            continue  # how the start bins are stored was evaluated together with the walk that consumes them
+        if getattr(ctx, "_walk_decided", False) and R.startswith("R-C02"):
+            # how start bins and responses are stored was evaluated together with the walk that consumes them (a response that is cut,
+            # reversed or re-aligned on the way changes which taps meet which bins; one that is scaled is outside the evaluator's
+            # vocabulary and makes the walk rule report "cannot decide")
+            ctx.ok(R, f.loc(), "the constructor stores the bank's %s in the form the walk consumes (evaluated with the walk)" % what)
+            continue
         v = ev.env.get(attr)
         if v is None or not (cc.is_call(v, "list") and len(v.args) == 2 and cc.is_call(v.args[1], "repeat")):
             ctx.error(R, "cannot decide how the constructor stores the bank's %s: %s" % (what, S.show(v)[:100] if v is not None else "not assigned"))
